@@ -305,7 +305,7 @@ func generate(thorough bool, emit func(kase)) {
 		}
 	}
 	// (v) DoH response bodies: content-length missing / lying / over the cap, with bodies up to 8 MiB (see runCase)
-	for _, v := range []string{"no-length-1MiB", "no-length-8MiB", "length-65536", "length-70000", "length-negative", "length-garbage", "length-10-body-5", "length-5-body-1MiB", "length-65535-full", "gzip-8MiB-in-9KB", "deflate-8MiB-in-9KB"} {
+	for _, v := range []string{"no-length-1MiB", "no-length-8MiB", "length-65536", "length-70000", "length-negative", "length-garbage", "length-10-body-5", "length-5-body-1MiB", "length-65535-full", "gzip-8MiB-in-9KB", "deflate-8MiB-in-9KB", "status-403", "status-400"} {
 		emit(kase{Family: "doh-body", Desc: v, Msg: append(hdr(1, 0, 0, 0), qA...)})
 	}
 	// (iii) header counts x number of records actually present
@@ -459,6 +459,10 @@ func runDoHBody(k kase, srv *dohmem.Server, res *ech.Resolver) (r workers.Result
 		a = dohmem.Answer{Raw: big(1 << 20), LengthHeader: "5"}
 	case "length-65535-full":
 		a = dohmem.Answer{Raw: big(65535)}
+	case "status-403":
+		a = dohmem.Answer{HTTPStatus: 403}
+	case "status-400":
+		a = dohmem.Answer{HTTPStatus: 400}
 	case "gzip-8MiB-in-9KB", "deflate-8MiB-in-9KB":
 		// an honest content-length (a few KB) and a Content-Encoding header: the body inflates to 8 MiB. The size cap is about what
 		// is decoded, not about what travelled
@@ -473,6 +477,12 @@ func runDoHBody(k kase, srv *dohmem.Server, res *ech.Resolver) (r workers.Result
 		a = dohmem.Answer{Raw: zb.Bytes(), ContentEncoding: enc}
 	}
 	srv.Zone = func(string, uint16) dohmem.Answer { return a }
+	openBefore := dohmem.OpenBodies.Load()
+	defer func() {
+		if left := dohmem.OpenBodies.Load() - openBefore; left != 0 && r.Viol == "" {
+			r.Viol, r.What = "doh-body-not-closed:"+k.Desc, fmt.Sprintf("%d response bodies were left open (a refused response must be closed like any other: the connection and its buffers stay allocated otherwise)", left)
+		}
+	}()
 	var ms0, ms1 runtime.MemStats
 	runtime.ReadMemStats(&ms0)
 	func() {
